@@ -15,15 +15,19 @@ package main
 
 import (
 	"bytes"
+	"errors"
 	"fmt"
 	"reflect"
 	"runtime"
 	"sort"
 	"strings"
+	"sync"
 	"time"
 	"unsafe"
 
+	"github.com/btcsuite/btcd/wire/v2"
 	"github.com/lightninglabs/neutrino/blockntfns"
+	"github.com/lightninglabs/neutrino/headerfs"
 
 	c "verifharness/internal/common"
 )
@@ -34,6 +38,100 @@ type ProbeRec struct {
 	K   int     `json:"k"`
 	Hs  []int64 `json:"hs,omitempty"`
 	Obs string  `json:"obs,omitempty"` // Coq term: list (Z * option (list (Z * Z) * Z))
+	// requests during which the n-th read of the block header store fails:
+	// pairs (n, h) and the answers, Coq term list (Z * Z * option ...)
+	Fs   [][2]int64 `json:"fs,omitempty"`
+	FObs string     `json:"fobs,omitempty"`
+}
+
+// faultStore is the block header store handed to the block manager with
+// -prop C19: while armed, its n-th FetchHeaderByHeight fails (once).
+type faultStore struct {
+	headerfs.BlockHeaderStore
+	mu     sync.Mutex
+	armed  bool
+	failAt int
+	calls  int
+}
+
+var errInjected = errors.New("injected header store read fault")
+
+func (f *faultStore) FetchHeaderByHeight(h uint32) (*wire.BlockHeader, error) {
+	f.mu.Lock()
+	if f.armed {
+		f.calls++
+		if f.calls == f.failAt {
+			f.mu.Unlock()
+			return nil, errInjected
+		}
+	}
+	f.mu.Unlock()
+	return f.BlockHeaderStore.FetchHeaderByHeight(h)
+}
+
+func (f *faultStore) arm(n int) {
+	f.mu.Lock()
+	f.armed, f.failAt, f.calls = true, n, 0
+	f.mu.Unlock()
+}
+
+func (f *faultStore) disarm() {
+	f.mu.Lock()
+	f.armed = false
+	f.mu.Unlock()
+}
+
+// answerTerm prints one NotificationsSinceHeight answer.
+func (v *env) answerTerm(h int64) string {
+	ntfns, best, err := v.bm.NotificationsSinceHeight(uint32(h))
+	if err != nil {
+		return "None"
+	}
+	var it []string
+	for _, n := range ntfns {
+		hd := n.Header()
+		hh := hd.BlockHash()
+		it = append(it, c.Pair(c.Z(v.tok(hh)), c.Z(int64(n.Height()))))
+	}
+	return c.Some(c.Pair(c.List(it), c.Z(int64(best))))
+}
+
+// faultTerm: for every (n, h) the answer to NotificationsSinceHeight(h) while
+// the n-th header read of the request fails.
+func (v *env) faultTerm(fs [][2]int64) string {
+	var out []string
+	for _, p := range fs {
+		v.fault.arm(int(p[0]))
+		a := v.answerTerm(p[1])
+		v.fault.disarm()
+		out = append(out, c.Pair(c.Pair(c.Z(p[0]), c.Z(p[1])), a))
+	}
+	return c.List(out)
+}
+
+// autoFaults: (n, h) pairs: loops of many, two, some and one reads with the
+// fault at the first, a middle, the last read and one past the last (no
+// fault).
+func (v *env) autoFaults() [][2]int64 {
+	fv := int64(v.bm.FilterHeaderTip())
+	var out [][2]int64
+	seen := map[[2]int64]bool{}
+	add := func(n, h int64) {
+		p := [2]int64{n, h}
+		if h > 0 && h < fv && n >= 1 && !seen[p] && len(out) < 5 {
+			seen[p] = true
+			out = append(out, p)
+		}
+	}
+	long := fv - 1     // reads of a request for height 1
+	add((long+1)/2, 1) // a middle read of the longest loop
+	add(long, 1)       // its last read
+	add(1, fv-2)       // first of two reads
+	add(3, fv-2)       // one past the last read: no fault
+	add(1, 1)
+	add(2, fv/2)
+	add(1, fv-1)
+	return out
 }
 
 const probeDeadline = 30 * time.Second
@@ -124,18 +222,7 @@ func (v *env) sinceTerm(since []int64) string {
 		if h < 0 {
 			continue
 		}
-		ntfns, best, err := v.bm.NotificationsSinceHeight(uint32(h))
-		if err != nil {
-			sn = append(sn, c.Pair(c.Z(h), "None"))
-			continue
-		}
-		var it []string
-		for _, n := range ntfns {
-			hd := n.Header()
-			hh := hd.BlockHash()
-			it = append(it, c.Pair(c.Z(v.tok(hh)), c.Z(int64(n.Height()))))
-		}
-		sn = append(sn, c.Pair(c.Z(h), c.Some(c.Pair(c.List(it), c.Z(int64(best))))))
+		sn = append(sn, c.Pair(c.Z(h), v.answerTerm(h)))
 	}
 	return c.List(sn)
 }
@@ -190,11 +277,18 @@ func (v *env) execProbed(op *Op, plan []ProbeRec, auto bool) (evs []blockntfns.B
 		lastK = k
 		ok := make(chan ProbeRec, 1)
 		go func() {
-			hs := p.Hs
+			hs, fs := p.Hs, p.Fs
 			if auto {
 				hs = v.autoHeights(ft0)
+				if v.fault != nil {
+					fs = v.autoFaults()
+				}
 			}
-			ok <- ProbeRec{K: k, Hs: hs, Obs: v.sinceTerm(hs)}
+			r := ProbeRec{K: k, Hs: hs, Obs: v.sinceTerm(hs)}
+			if v.fault != nil {
+				r.Fs, r.FObs = fs, v.faultTerm(fs)
+			}
+			ok <- r
 		}()
 		select {
 		case r := <-ok:
@@ -244,22 +338,29 @@ func (v *env) execProbed(op *Op, plan []ProbeRec, auto bool) (evs []blockntfns.B
 }
 
 // probesTerm prints the probes of one history for C19/Replay.v:
-// list (step, list (k, answers)).
-func probesTerm(h *History) string {
-	var items []string
+// mprobes : list (step, list (k, answers)) and mfaults : the same shape for
+// the answers under a read fault.
+func probesTerm(h *History) (string, string) {
+	var items, fitems []string
 	step := 0
 	for j := range h.Ops {
 		if h.Ops[j].Obs == "" {
 			continue
 		}
 		if len(h.Ops[j].Probes) > 0 {
-			var ps []string
+			var ps, fps []string
 			for _, p := range h.Ops[j].Probes {
 				ps = append(ps, c.Pair(c.Z(int64(p.K)), p.Obs))
+				if p.FObs != "" {
+					fps = append(fps, c.Pair(c.Z(int64(p.K)), p.FObs))
+				}
 			}
 			items = append(items, c.Pair(c.Z(int64(step)), c.List(ps)))
+			if len(fps) > 0 {
+				fitems = append(fitems, c.Pair(c.Z(int64(step)), c.List(fps)))
+			}
 		}
 		step++
 	}
-	return c.List(items)
+	return c.List(items), c.List(fitems)
 }
